@@ -1,6 +1,7 @@
 """C09 — followers apply the leader's log exactly and converge (replication ring buffer + SYNC handshake)."""
-import json, os
+import json, os, subprocess
 import vlib
+from props import c09_eproc
 
 THEOREMS = ["Slock.C09." + t for t in (
     # ring buffer: all guarded operation sequences of any length (induction), + witnesses that the guard is needed
@@ -26,7 +27,20 @@ _STALE = ("replication.go AddPoll walks `cursor.currentItem → nextItem` and in
           "\"started\" message): the recycled marks 0xffffffff wrap to 0, so a cursor at seq 0 (the first record pushed since start) "
           "passes Pop's `seq` check against the recycled item (seq reset to 0) and is served stale items from the free list, or EOF for "
           "ever, instead of \"out of buf\". Lean witnesses: Slock.C09.C09_no_gap_fails, Slock.C09.C09_out_of_buf_fails")
+_EARLY = ("replication.go ReplicationClient.InitSync stores the id H answered by the leader as its own currentAofId BEFORE any record has "
+          "arrived (`self.currentAofId = aofId` right before recvFiles(), after aof.Reset + FlushDB). If the connection is lost before the first "
+          "file record arrives, the reconnect reports H as \"last applied\", handleInitSync finds H in the ring buffer and resumes after it: the "
+          "follower holds NONE of the records 1…H and stays that way. Reproduced on real processes (follower restarted on an empty dir, its "
+          "first connection cut 120 bytes into the leader's answer); Lean witness: Slock.C09.C09_resync_fails_early_cut")
+_EXPIRED = ("aof.go LoadAofFile drops every LOCK record whose OWN deadline has passed before it calls the iterator — also when a later re-entrant "
+            "re-lock extended the hold (depth) or when the value it set outlives it. sendFiles (full transfer), the follower's aof.Load() on a "
+            "resume and a plain recovery all go through it, so a follower synchronised from files holds depth-1 / the older value while the "
+            "live leader holds more; the follower equals what a RECOVERY of the leader's own log yields (checked with a shadow process), i.e. the "
+            "root cause is the load filter (recovery class, C07), visible through replication")
 PENDING_FINDINGS = {
+    "C09:follower-missing-record:cut-before-first-file-record": _EARLY,
+    "C09:follower-diverged:expired-record:equals-leader-recover": _EXPIRED,
+    "C09:follower-diverged:expired-record": _EXPIRED + " [in this run the shadow recovery, which is time dependent, did not match exactly]",
     "C09:gap-or-dup:stale-addpoll": _STALE,
     "C09:skipped-silently:stale-addpoll": _STALE,
     "C09:overtaken-no-error:stale-addpoll": _STALE,
@@ -36,7 +50,15 @@ PENDING_FINDINGS = {
 FINISH = {"level": "proof", "assumptions": [
     "M-REPL (lean/Slock/Model/Repl.lean) is hand-written; the buffer-queue half is tied to server/replication.go by the differential run "
     "(real ReplicationBufferQueue, every observation and the full internal state recomputed by the model); the handshake half is a "
-    "reading of handleInitSync / sendFiles / SendProcess / sendSyncCommand / InitSync / recvFiles and is model-only",
+    "reading of handleInitSync / sendFiles / SendProcess / sendSyncCommand / InitSync / recvFiles, tied at process level: the connect "
+    "DECISION (full / resume after R / not-found) is compared with the real leader's on every observed handshake, and the END STATE "
+    "(follower holds = leader holds at quiescence) is checked on real processes after restarts and cuts",
+    "still model-only: the per-event semantics between handshake and quiescence (file phase record by record, `deliver`, the cursor's position "
+    "inside the real leader) are not compared step by step — only their outcome is; the empty-buffer counterexample "
+    "(C09_resync_fails_empty_buffer) needs > ring-buffer-max of traffic during a file phase and is not provoked at process level; "
+    "several append files / AOF rewrite during a transfer are not exercised (single append file)",
+    "process-level observation uses the text admin command SHOW on both nodes: key, LockId, depth, value, deadline; Count / Rcount of a hold "
+    "are not visible there (the binary LIST_LOCKED refuses on a follower)",
     "granularity: one model step = one critical section of the queue's RW lock; a connection cut is an event at a message boundary "
     "(byte-level cuts are absorbed by the 64-byte framing)",
     "uint64 seq / usedBufferSize / bufferSize do not wrap (fewer than 2^64-1 pushes); fewer than 2^32-1 AddPoll calls",
@@ -78,6 +100,78 @@ def classify(op, impl):
     last = obs[-1]
     grew = last.split("/")[0].split(".")[-1] if "/" in last else "?"
     return (t[1], t[2], ",".join(kinds), grew, "F" in last and not last.endswith("/F"))
+
+
+def note_monitor(ctx, sig, what, replay):
+    seen = ctx.cov.setdefault("monitor_signatures_seen", {})
+    seen[sig] = seen.get(sig, 0) + 1
+    if sig in PENDING_FINDINGS and not any(k["property"] == ctx.prop and k["signature"] == sig for k in ctx.load_known().get("findings", [])):
+        if sig not in [x["signature"] for x in ctx.known]:
+            ctx.known.append({"signature": sig, "what": "(pending triage) " + PENDING_FINDINGS[sig], "replay": replay})
+            ctx.cov.setdefault("pending_findings", []).append({"signature": sig, "what": PENDING_FINDINGS[sig], "first_replay": replay, "seen": what})
+            print(f"PENDING-FINDING: property={ctx.prop} [{sig}] {PENDING_FINDINGS[sig]} (reproduced in this run: {what[:600]})", flush=True)
+    elif sig.startswith("C09:"):
+        ctx.add_violation(what, sig, replay)
+
+
+def process_level(ctx):
+    """Real leader + follower processes (tools/props/c09_eproc.py): state comparison at quiescent points + handshake differential."""
+    if not c09_eproc.build_server(ctx):
+        return
+    if ctx.tier == "quick":
+        jobs = [(ctx.seed, "basic"), (ctx.seed, "livegap")]
+    else:
+        jobs = [(ctx.seed + i, k) for i in range(2) for k in ("cuts", "basic", "livegap", "emptydir", "filecut", "filecut0", "filekill", "expiredrecord")]
+    runs = c09_eproc.run_scenarios(ctx, jobs)
+    ep = ctx.cov.setdefault("eproc", {"scenarios": [], "state_comparisons": 0, "handshakes_seen": {}, "handshakes_vs_model": 0,
+                                      "leader_ops": 0, "op_kinds": {}})
+    pairs = []
+    for r in runs:
+        if isinstance(r, tuple):
+            ctx.broken.append({"kind": "tie", "name": f"C09 E-proc scenario {r[1]} seed {r[0]}", "detail": r[2]})
+            continue
+        ep["scenarios"].append({"kind": r.label, "seed": r.seed, "wall_s": round(r.wall, 1), "comparisons": r.compares, "ops": r.wl.ops if r.wl else 0,
+                                "steps": r.trace, "monitors": [m[0] for m in r.mon]})
+        ep["state_comparisons"] += r.compares
+        ep["leader_ops"] += r.wl.ops if r.wl else 0
+        for k, v in (r.wl.kinds if r.wl else {}).items():
+            ep["op_kinds"][k] = ep["op_kinds"].get(k, 0) + v
+        ctx.cov["evaluations"] += r.compares
+        if not all(r.alive):
+            ctx.broken.append({"kind": "tie", "name": f"server process died ({r.label}, seed {r.seed})", "detail": json.dumps(r.logs)[-2500:]})
+        for sig, what, replay in r.mon:
+            replay = dict(replay, logs={k: v[-1500:] for k, v in r.logs.items()})
+            note_monitor(ctx, sig, what, replay)
+        for step in r.trace:
+            if ": handshake " in step:
+                k = step.split(": handshake ")[1].split(":")[0]
+                ep["handshakes_seen"][k] = ep["handshakes_seen"].get(k, 0) + 1
+        for lines, impl in r.handshakes:
+            pairs.append((r, lines, impl))
+    # handshake decisions vs the Lean model
+    if pairs:
+        opsf = os.path.join(ctx.tmp, "replsync.ops")
+        with open(opsf, "w") as f:
+            for _, lines, _ in pairs:
+                for l in lines:
+                    f.write(l + "\n")
+        mp = ctx.run_model(opsf)
+        model = open(mp).read().split("\n") if mp else []
+        i = 0
+        for r, lines, impl in pairs:
+            outs = [m.split(";")[-1] for m in model[i:i + len(lines)]]
+            i += len(lines)
+            ep["handshakes_vs_model"] += 1
+            ctx.cov["evaluations"] += 1
+            ctx.cov["traces_validated_against_impl"] += 1
+            ctx.distinct.add(("handshake", impl.split(":")[0], r.label))
+            if len(ctx.cov["samples"]) < 9:
+                ctx.cov["samples"].append({"op": lines[0][:120] + " … " + lines[0][-40:], "impl": impl, "model": outs[0] if outs else None})
+            if impl not in outs:
+                ctx.cov["disagreements_checked"] += 1
+                ctx.broken.append({"kind": "correspondence", "name": "M-REPL handshake decision vs real handleInitSync",
+                                   "detail": f"scenario {r.label} seed {r.seed}: the real leader decided {impl}, the model decides {sorted(set(outs))} "
+                                             f"(for {len(lines)} candidate record counts); op={lines[0][:300]} … {lines[0][-60:]}"})
 
 
 def run(ctx):
@@ -122,8 +216,12 @@ def run(ctx):
             if dis:
                 ctx.broken.append({"kind": "correspondence", "name": "M-REPL vs real ReplicationBufferQueue (witness replay)",
                                    "detail": f"op={dis[0][1]} impl={dis[0][2]} model={dis[0][3]}"})
-    ctx.cov["handshake"] = ("model-only: handleInitSync / InitSync / recvFiles / SendProcess are modelled from the source "
-                            "(Slock.Repl.Sync), not driven differentially; see C09_resync_fails_* for the two defects found in the model")
+    process_level(ctx)
+    ctx.cov["handshake"] = ("process level (tools/props/c09_eproc.py): real leader + follower processes, follower restarts on the same / an empty data "
+                            "dir after short and long gaps, connection cuts while idle / in a burst / at byte offsets of the answer, the file phase and "
+                            "the stream, kill in the middle of the file phase; after each the follower's holds (key, LockId, depth, value, deadline ±1) are "
+                            "compared with the leader's at quiescence, and every handshake decision the leader logged (full / resume / not-found) is "
+                            "compared with the Lean handshake model's decision on the same record sequence and reported id")
     ctx.cov["rule"] = ("seeded operation sequences (push with/without data, new cursor, AddPoll/RemovePoll, ack+Pop as SendProcess does, bare Pop, Head, "
                        "Search for buffered / evicted / never-pushed ids, state dumps) on the real ReplicationBufferQueue with initial sizes 0‥640 bytes and "
                        "max sizes 64‥8×initial, up to 4 cursors of different speeds, four profiles (mixed, push-heavy, fast+slow cursors, data-heavy); every "
